@@ -23,6 +23,6 @@ PROP = {
         "shards": {"quick": 12, "thorough": 16},
         "watchdog": {"quick": 900, "thorough": 5400},
         "floors": {"quick": {"nontrivial": 400, "oracle_cross_party": 10000, "oracle_mirror": 500},
-                   "thorough": {"nontrivial": 15000}},
+                   "thorough": {"nontrivial": 5000}},
     }],
 }
